@@ -56,7 +56,7 @@ func runC07(c *Ctx) {
 		return
 	}
 	roots := c.operationRoots(ea)
-	c.floor("no-hidden-state", "operation entry points", len(roots), 20)
+	c.floor("no-hidden-state", "operation entry points", len(roots), 15)
 	R := ix.Reachable(roots...)
 	for f := range R {
 		c.touch(fnKey(f))
@@ -73,7 +73,7 @@ func runC07(c *Ctx) {
 			}
 		}
 	}
-	c.floor("no-hidden-state", "wrapper fields", nWrapperFields, 8)
+	c.floor("no-hidden-state", "wrapper fields", nWrapperFields, 4)
 	var hidden, outside []string
 	for _, fn := range p.Funcs {
 		if fn.Pkg == nil || !enginePkgs[shortPkg(fn.Pkg.Pkg.Path())] {
@@ -254,7 +254,7 @@ func runC07(c *Ctx) {
 	} else {
 		walk(root, false)
 		sort.Strings(derived)
-		c.floor("serialized-closure", "fields in GameState's type closure", nFields, 40)
+		c.floor("serialized-closure", "fields in GameState's type closure", nFields, 30)
 		c.role("derived (non-serialised) fields", strings.Join(derived, ","))
 		c.check(len(badT) == 0, "serialized-closure", "GameState#types", "-", fmt.Sprintf("%d fields: all serialised ones have JSON-compatible types; %d derived roots reported", nFields, len(derived)), "part of the state cannot survive a JSON hop", uniq(badT, 4)...)
 	}
@@ -361,9 +361,9 @@ func runC07(c *Ctx) {
 				}
 			}
 		}
-		c.floor("derived-recomputed", "operation-reachable reads of derived fields", nDer, 4)
+		c.floor("derived-recomputed", "operation-reachable reads of derived fields", nDer, 2)
 		// the settlement entry allocates the Result it works on
-		s := newSumm(p, 0)
+		s := withPrivateHelpers(newSumm(p, 0), settle)
 		paths, _ := s.Function(settle)
 		okFresh := len(paths) > 0
 		for _, ps := range paths {
@@ -772,7 +772,7 @@ func runC07Determinism(c *Ctx, ea *engineAnchors, roots []*ssa.Function, R map[*
 		c.check(len(conc) == 0, "determinism-sources", "operations-are-sequential", "-", fmt.Sprintf("none of the %d functions reachable from operations starts a goroutine or selects over channels", len(R)), "an operation's result can depend on scheduling", uniq(conc, 3)...)
 	}
 	c.role("clock/random-derived fields", strings.Join(sortedSet(clockFields), ","))
-	c.floor("determinism-sources", "clock/random call sites in engine packages", len(sites), 4)
+	c.floor("determinism-sources", "clock/random call sites in engine packages", len(sites), 2)
 	// classify each site
 	shuffle := p.Func("pokerface", "", "ShuffleCards")
 	for _, st := range sites {
